@@ -254,9 +254,12 @@ fn main() {
     // ---- (a) sequential histories: endpoint 1 with up to three connections (1, 2, 3), peers 8 and 9 with one connection each
     let alphabet: Vec<Op> = vec![Op::Connect(1, 1), Op::Connect(1, 2), Op::Connect(1, 3), Op::Close(1), Op::Close(2), Op::Close(3), Op::Connect(8, 80), Op::Close(80), Op::Connect(9, 90),
                                  Op::Send(1, 8), Op::Send(1, 9), Op::Send(8, 1), Op::Drain(80), Op::DisconnectConn(1, 1), Op::DisconnectConn(1, 3), Op::DisconnectAll(1)];
-    // a second, focused pass: four connections of ONE endpoint connecting and closing in every order, two steps deeper
+    // focused passes, two steps deeper: four connections of ONE endpoint connecting and closing in every order; and one sender
+    // (two successive connections) against a registered peer — packets, closes, reconnects, draining the peer's queue
     let focused: Vec<Op> = vec![Op::Connect(1, 1), Op::Connect(1, 2), Op::Connect(1, 3), Op::Connect(1, 4), Op::Close(1), Op::Close(2), Op::Close(3), Op::Close(4)];
-    for (alphabet, depth) in [(alphabet, max_len), (focused, if max_len == 0 { 0 } else { max_len + 2 })] {
+    let sender: Vec<Op> = vec![Op::Connect(1, 1), Op::Connect(1, 2), Op::Close(1), Op::Close(2), Op::Send(1, 8), Op::Drain(80)];
+    let deeper = if max_len == 0 { 0 } else { max_len + 2 };
+    for (setup, alphabet, depth) in [(vec![], alphabet, max_len), (vec![], focused, deeper), (vec![Op::Connect(8, 80)], sender, deeper)] {
     let max_len = depth;
     let n = alphabet.len();
     let mut idx: Vec<usize> = vec![0];
@@ -264,15 +267,16 @@ fn main() {
         if max_len == 0 { break; }
         let seq: Vec<Op> = idx.iter().map(|i| alphabet[*i]).collect();
         // a connection id connects at most once (ids are unique per process)
-        let mut seen = HashSet::new();
+        let mut seen: HashSet<u64> = setup.iter().filter_map(|o| match o { Op::Connect(_, c) => Some(*c), _ => None }).collect();
         let valid = seq.iter().all(|o| match o { Op::Connect(_, c) => seen.insert(*c), _ => true });
-        let input = format!("history={:?}", seq);
+        let input = if setup.is_empty() { format!("history={:?}", seq) } else { format!("after={:?} history={:?}", setup, seq) };
         if valid && !rep.skip(&input) {
             rep.evaluations += 1; if seq.iter().filter(|o| matches!(o, Op::Connect(1, _))).count() >= 2 { rep.nontrivial += 1; }
             if seq.len() == 4 && idx[0] == 0 && idx[1] == 1 && idx[2] == 3 { rep.sample(&input); }
-            let seq2 = seq.clone();
+            let (seq2, setup2) = (seq.clone(), setup.clone());
             let out = std::panic::catch_unwind(move || {
                 let (sys, mut model) = (Sys::new(), Model::default());
+                for op in &setup2 { sys.apply(*op); model.apply(*op); }
                 for (k, op) in seq2.iter().enumerate() {
                     let (r, w) = (sys.apply(*op), model.apply(*op));
                     if r != w { return Some(("operations-return-what-the-registry-state-implies", format!("step {} {:?} returned {:?}, expected {:?}", k + 1, op, r, w))); }
@@ -341,6 +345,35 @@ fn main() {
                 }
                 if rep.only.is_some() { break; }
                 match sched::next_prefix(out.trace) { Some(p) => prefix = p, None => break }
+            }
+        } }
+    }
+    // ---- (c0) C08, registered connections: connections 5, 6, 7 of endpoint 1 registered in every order (connection ids are handed
+    //      out at admission, registration order may differ), then one disconnect request by connection id or for the endpoint
+    if conc == 2 {
+        let ids = [5u64, 6, 7];
+        let mut orders: Vec<Vec<u64>> = vec![];
+        for a in ids { orders.push(vec![a]); for b in ids { if b != a { orders.push(vec![a, b]); for c in ids { if c != a && c != b { orders.push(vec![a, b, c]); } } } } }
+        for order in &orders { for target in [Some(5u64), Some(6), Some(7), None] {
+            let input = format!("registered-in-order={:?} request={}", order, target.map_or("whole endpoint".to_string(), |t| format!("connection {t}")));
+            if rep.skip(&input) { continue; }
+            rep.evaluations += 1; if order.len() >= 2 { rep.nontrivial += 1; }
+            let (order2, target2) = (order.clone(), target);
+            let out = std::panic::catch_unwind(move || {
+                let sys = Sys::new();
+                sys.apply(Op::Connect(8, 80));
+                for c in &order2 { sys.apply(Op::Connect(1, *c)); }
+                let r = sys.apply(match target2 { Some(t) => Op::DisconnectConn(1, t), None => Op::DisconnectAll(1) });
+                (r, sys.observe().shutdown_requested)
+            });
+            match out {
+                Err(_) => rep.fail("never-panics", "sequential", &input, "disconnect panicked".into()),
+                Ok((r, asked)) => {
+                    let want: HashSet<u64> = match target { Some(t) => if order.contains(&t) { [t].into_iter().collect() } else { HashSet::new() }, None => order.iter().copied().collect() };
+                    if asked != want { rep.fail("disconnect-of-an-admitted-connection-takes-effect", "registered", &input, format!("connections asked to shut down: {:?}, the request names {:?} (disconnect returned {:?})", asked, want, r)); }
+                    if r != Some((!want.is_empty()).to_string()) { rep.fail("disconnect-reports-whether-it-found-the-connection", "registered", &input, format!("disconnect returned {:?} although it names {} registered connection(s)", r, want.len())); }
+                    if asked.contains(&80) { rep.fail("other-connections-unaffected", "other-endpoint", &input, "the peer's connection was asked to shut down".into()); }
+                }
             }
         } }
     }
